@@ -301,6 +301,9 @@ AbsLen(s) ==
 AbsNeed(s) ==
   IF ~KnownP(s) THEN 0
   ELSE IF s.pc \in {"a_type", "a_min"} THEN FixedFrom(Prog(s.ptype), 1) ELSE FixedFrom(Prog(s.ptype), s.fi)
+AbsOps(s) ==
+  IF ~KnownP(s) THEN 0
+  ELSE IF s.pc \in {"a_type", "a_min"} THEN Len(Prog(s.ptype)) ELSE Max(0, Len(Prog(s.ptype)) - s.fi + 1)
 AbsReq(s) == IF s.req.kind \in {"read", "skip", "sub"} THEN s.req.n ELSE 0
 AbsReqRem(s) == IF s.req.kind \in {"read", "skip", "sub"} THEN s.req.rem ELSE 0
 
@@ -313,6 +316,7 @@ LM == INSTANCE LenMachine WITH
         len <- AbsLen(st),
         alen <- IF "len" \in DOMAIN st.cur THEN st.cur.len ELSE 0,
         need <- AbsNeed(st),
+        ops <- AbsOps(st),
         minl <- IF KnownP(st) THEN MinLen(st.ptype) ELSE 0,
         hdr <- IF DataPhase(st) THEN DataMinHdr(st.flags) ELSE 4,
         hasL <- DataPhase(st) /\ FlagL(st.flags),
@@ -323,6 +327,26 @@ LM == INSTANCE LenMachine WITH
         reqrem <- AbsReqRem(st)
 
 RefinesLen == [][LM!Next]_vars
+\* LenMachine!Progress (a lexicographic rank that every abstract step decreases, shown for inputs of any
+\* length) leaves out "bookkeeping" steps that do not move the abstract state.  Of those the Decoder machine
+\* takes at most a fixed number in a row: each one moves strictly forward in this order of its program counters.
+PcOrder0(p) ==
+  CASE p = "flags" -> 1 [] p = "version" -> 2 [] p = "reserved" -> 3 [] p = "dispatch" -> 4 [] p = "c_unused" -> 5
+    [] p = "c_bits" -> 6 [] p = "c_hdr" -> 7 [] p = "c_len" -> 8 [] p = "c_carve" -> 9 [] p = "a_hdr" -> 10
+    [] p = "a_len" -> 11 [] p = "a_vendor" -> 12 [] p = "a_hidden" -> 13 [] p = "a_type" -> 14 [] p = "a_min" -> 15
+    [] p = "a_field" -> 16 [] p = "d_min" -> 17 [] p = "d_fields" -> 18 [] p = "d_offset" -> 19 [] p = "d_skip" -> 20
+    [] p = "d_extent" -> 21 [] p = "d_payload" -> 22 [] p = "c_first" -> 23 [] p = "c_collect" -> 24 [] p = "g_done" -> 25
+    [] p = "done" -> 26
+AbsUnmoved ==
+  /\ AbsPc(st') = AbsPc(st) /\ st'.lim - st'.pos = st.lim - st.pos /\ st'.aend - st'.apos = st.aend - st.apos
+  /\ (IF DataPhase(st') THEN 0 ELSE st'.pend - st'.ppos) = (IF DataPhase(st) THEN 0 ELSE st.pend - st.ppos)
+  /\ AbsNeed(st') = AbsNeed(st) /\ AbsOps(st') = AbsOps(st)
+\* (an unknown attribute type is reported by a step that returns to a_hdr without moving the abstract state:
+\*  the abstraction went to a_hdr one step earlier; it ranks just below a_hdr)
+PcOrder(s) == IF s.pc = "a_type" /\ ~KnownP(s) THEN 19 ELSE 2 * PcOrder0(s.pc)
+IdleAdvances == [][AbsUnmoved => PcOrder(st') > PcOrder(st)]_vars
+AbsProgress == [][LM!Progress]_vars
+
 \* and the abstract state of every reachable Decoder state satisfies the abstract machine's invariant
 AbsInv == LM!Safe /\ LM!TypeOK
 
